@@ -675,6 +675,41 @@ func (e *Env) call(x *ECall) CV {
 			return CV{k: cvStr, arr: a.t, off: "0", n: a.n}
 		}
 		unsupp("contract: str() of kind %d", a.k)
+	case "calls", "callarg", "callres":
+		s, ok := x.Args[0].(*EStr)
+		if !ok {
+			unsupp("contract: %s(\"iface.Method\", ...)", x.Fn)
+		}
+		if fx.ghost == nil {
+			fx.ghost = map[string]*Cell{}
+		}
+		if x.Fn == "calls" {
+			c := fx.ghost["calls:"+s.V]
+			if c == nil {
+				return CV{k: cvInt, t: "0"}
+			}
+			if v, live := e.st.cells[c]; live {
+				return cvOf(v)
+			}
+			return CV{k: cvInt, t: "0"}
+		}
+		idx, ok2 := x.Args[1].(*EInt)
+		if !ok2 {
+			unsupp("contract: %s needs a literal index", x.Fn)
+		}
+		pre := "arg:"
+		if x.Fn == "callres" {
+			pre = "res:"
+		}
+		c := fx.ghost[pre+s.V+":"+idx.V]
+		if c == nil {
+			unsupp("contract: no recorded call of %s", s.V)
+		}
+		v, live := e.st.cells[c]
+		if !live {
+			v = *c.ghostInit
+		}
+		return cvOf(v)
 	case "haskey":
 		m, k := arg(0), arg(1)
 		if m.k != cvVal || m.v.sh.kind != KMap {
